@@ -474,7 +474,8 @@ def l3(ctx):
         ctx.check(not extra, "pattern-printer-no-foreign-literal", "every structural literal the pattern printer writes is a token of the tokenizer", "the pattern printer writes %s which the tokenizer does not treat as structure" % sorted(extra))
     if mpd:
         lits = {p for t_ in mpd[0] for p in t_ if p != "{}"}
-        ctx.check({p.strip() for p in lits if p.strip()} == {"==", ","}, "multipattern-printer-literals", "the multi-pattern printer writes == and , — the separators its parser splits on", "the multi-pattern printer writes %s" % sorted(lits))
+        ws_ = {x for p in lits for x in re.split(r"\s+|(?<=\?)|(?=\?)", p) if x}
+        ctx.check({"==", ","} <= ws_ <= {"==", ",", "?"}, "multipattern-printer-literals", "the multi-pattern printer writes == and , — the separators its parser splits on", "the multi-pattern printer writes %s" % sorted(lits))
     # RecExpr prints through re_to_pattern
     re_disp = [b for b in crate.fns() if b.name == "fmt" and (b.impl_trait or "").endswith("fmt::Display") and "RecExpr" in (b.impl_self or "")]
     ok = bool(re_disp) and any(c.callee and c.callee.name == "re_to_pattern" for c in re_disp[0].calls)
@@ -560,3 +561,53 @@ def l5(ctx):
 
 
 RULES.append(l5)
+
+
+@rule("L6", doc="a multi-pattern prints every variable with its `?`: a raw name reaches the text only behind a literal `?` or through the pattern printer", once=True)
+def l6(ctx):
+    crate = ctx.lib("default")
+    fmts = [b for b in crate.fns() if b.name == "fmt" and (b.impl_trait or "").endswith("fmt::Display") and "MultiPattern" in (b.impl_self or "")]
+    C.need("Display for MultiPattern", [b.id for b in fmts])
+    n = 0
+    for b0 in fmts:
+        b = mir.inline_view(crate, b0)
+        for sub in b.all_bodies():
+            for c in sub.calls:
+                if sub.blocks[c.bb]["cleanup"] or not (c.callee and c.callee.name == "new" and "Arguments" in (c.callee.impl_self or "")):
+                    continue
+                r = sub.role_of_operand(c.args[0])
+                t = c17.decode_fmt("const " + r[1]) if r[0] == "const" else None
+                if t is None:
+                    continue
+                # the displayed values, in order: the `Argument::new_*` calls that feed this Arguments::new
+                ra = strip_role(sub.role_of_operand(c.args[1]))
+                holes = []
+                for x in role_walk(ra):
+                    if isinstance(x, tuple) and x[0] == "call" and x[1].startswith("new_") and len(x) > 4:
+                        cs = sub.call_at.get(x[4]) if isinstance(sub.call_at, dict) else sub.call_at[x[4]]
+                        pl = mir.op_place(cs.args[0]) if cs is not None and cs.args else None
+                        holes.append(sub.local_ty(pl["l"]) if pl else "?")
+                if holes and len(holes) != t.count("{}"):
+                    ctx.info("template %s: %d holes but %d displayed values recognised; skipped" % (t, t.count("{}"), len(holes)))
+                    continue
+                k = 0
+                prev = ""
+                for piece in t:
+                    if piece != "{}":
+                        prev = piece
+                        continue
+                    ty = holes[k] if k < len(holes) else "?"
+                    k += 1
+                    bare = ty.replace("&", "").strip()
+                    if bare in ("std::string::String", "str") or bare.endswith("::PVar"):
+                        n += 1
+                        ctx.check(prev.endswith("?"), "variable-sigil:%d" % n, "the name in template %s is written behind a literal `?`" % t,
+                                  "Display for MultiPattern writes a variable name (a %s) without the `?` its parser requires (template %s): the printed text is rejected by MultiPattern::parse, or read as a constant" % (bare.split("::")[-1], t), where_of(sub, c.bb))
+                    elif "pattern::Pattern" in bare:
+                        n += 1
+                        ctx.ok("pattern-hole:%d" % n, "a Pattern value is written by the pattern printer (variables print as ?name)")
+                    prev = ""
+    ctx.floor("displayed values in the multi-pattern printer", n, 2)
+
+
+RULES.append(l6)
